@@ -401,8 +401,10 @@ void fiber_fd_closed(int fd) {
     return;
   }
 
-  assert(fd >= 0);
-  assert(fd < max_fd);
+  if (fd < 0 || fd >= max_fd) {
+    // not a descriptor we could be tracking; the real close() will report it
+    return;
+  }
   fd_wait_info_t* const info = &wait_info[fd];
   fiber_spinlock_lock(&info->spinlock);
 #if defined(__linux__)
